@@ -128,7 +128,11 @@ func programValid(prefix byte, p prog, data []byte) (bool, string) {
 		case clsSchnorr:
 			return schnorr()
 		case clsMultiSig:
-			return multisig("multisig")
+			if s.m >= 1 && s.m <= s.n && s.n == len(s.keys) {
+				return multisig("multisig")
+			}
+			// a multisig-shaped string whose m/n bytes are out of range is not a
+			// script of any class: nobody is defined as its signer
 		}
 		return false, "unclassified-code-no-signer-defined"
 	case prefMultiSig:
